@@ -162,9 +162,14 @@ func startEnv(e *WEnv, runTasks bool) error {
 	fdb, _ := e.wdb.(*faultDB)
 	nBusy := 0
 	if !runTasks && fdb != nil {
-		for _, it := range strings.Split(e.Wallets(), ",") {
-			if i := strings.LastIndex(it, ":"); i >= 0 && it[i+1:] != "ready" {
-				nBusy++
+		// wallets with unfinished work, decided per wallet by the single-record lookup (CheckReady), NOT by the listing
+		// Start itself re-queues from: a listing that marks more wallets than the records say (seed C06-5: the removed
+		// flag leaked to the wallets listed after the marked one) must show up as a re-queue mismatch
+		if ws, err := e.wm.Wallets(); err == nil {
+			for _, s := range ws {
+				if ready, err := e.wm.CheckReady(s.WalletID); err == nil && !ready {
+					nBusy++
+				}
 			}
 		}
 		fdb.armGate()
